@@ -76,13 +76,20 @@ def _serialize_element(
     if not schema.get("properties", True):
         del schema["properties"]
     if "properties" in schema:
-        schema["required"] = [
+        explicit = schema.get("required", [])
+        schema["required"] = explicit + [
             prop.source or name
             for name, prop in schema["properties"].items()
-            if prop.required
+            if prop.required and (prop.source or name) not in explicit
         ]
-    if not schema.get("required", True):
-        del schema["required"]
+        schema["properties"] = {
+            prop.source or name: prop
+            for name, prop in schema["properties"].items()
+        }
+        if not schema["required"] and not isinstance(
+            getattr(element, "required", None), list
+        ):
+            del schema["required"]
     if isinstance(element, CompositionElement):
         schema[element.mode] = element.elements
     if isinstance(element, Not):
